@@ -132,11 +132,11 @@ def handle : Handler := fun op inp impl => do
     let fuel ← fNat inp "max"
     if (jopt impl "failed").isSome || (jopt impl "panic").isSome then
       -- a sync returned an error on the way (only possible outside the claimed region)
-      let claimed := inv s && inScope s && covers s && cfgLive s
+      let claimed := live s
       return { model := .null, holds := [("C17.v", !claimed)], tags := ["converge", "converge:failed"] }
     let nf ← fInt impl "new"
     let of' ← fInt impl "old"
-    let claimed := inv s && inScope s && covers s && cfgLive s
+    let claimed := live s
     let tags := ["converge", if claimed then "converge:claimed" else "converge:unclaimed",
                  s!"replicas:{bucket s.replicas}"]
     match converge fuel s 0 with
